@@ -12,6 +12,17 @@ VALID_CELL = (
     " and implies({c}[1] == 'm', {p} > 0 and {q} > 0 and T(eq(seq_a[{p} - 1], seq_b[{q} - 1])))"
 )
 
+# scores: every cell holds the LCS length of the two prefixes, and its letter says where that score came from
+SCORE_CELL = (
+    "({c}[1] == 'e' or {c}[1] == 'i' or {c}[1] == 'd' or {c}[1] == 'm')"
+    " and (({c}[1] == 'e') == ({p} == 0 and {q} == 0))"
+    " and implies({c}[1] == 'i', {q} > 0) and implies({c}[1] == 'd', {p} > 0) and implies({c}[1] == 'm', {p} > 0 and {q} > 0)"
+    " and {c}[0] == lcs(seq_a, seq_b, {p}, {q})"
+    " and implies({c}[1] == 'm', {c}[0] == lcs(seq_a, seq_b, {p} - 1, {q} - 1) + 1)"
+    " and implies({c}[1] == 'i', {c}[0] == lcs(seq_a, seq_b, {p}, {q} - 1))"
+    " and implies({c}[1] == 'd', {c}[0] == lcs(seq_a, seq_b, {p} - 1, {q}))"
+)
+
 contract(
     "inline_snapshot._align.nw_align",
     params={"seq_a": "List[Val]", "seq_b": "List[Val]"},
@@ -112,4 +123,39 @@ contract(
             decreases="len(groups) - i",
         ),
     },
+)
+
+
+# second contract on the same function: optimality of the alignment (kept apart because the recursive lcs axioms slow
+# the other obligations down)
+contract(
+    "inline_snapshot._align.nw_align",
+    name="inline_snapshot._align.nw_align#lcs",
+    params={"seq_a": "List[Val]", "seq_b": "List[Val]"},
+    returns="Text",
+    uses=["cnt", "lcs", "val"],
+    ensures={
+        # C11: "sequence elements [are matched] by a longest-common-subsequence alignment": the number of kept elements is maximal
+        "keeps-a-longest-common-subsequence [C11]": "cnt(result, 'm') == lcs(seq_a, seq_b, len(seq_a), len(seq_b))",
+    },
+    ghost={"locals": {"matrix": "List[List[Tuple[Int,Char]]]", "new_line": "List[Tuple[Int,Char]]", "track": "Text"}},
+    loops={
+        0: Loop(index="r", inv={
+            "rows": "len(matrix) == r + 1",
+            "row-length": "all(len(matrix[p]) == len(seq_b) + 1 for p in range(0, r + 1))",
+            "cells-score": "all(all(" + SCORE_CELL.format(c="matrix[p][q]", p="p", q="q") + " for q in range(0, len(seq_b) + 1)) for p in range(0, r + 1))",
+        }),
+        1: Loop(index="k", inv={
+            "line-length": "len(new_line) == k + 1",
+            "line-score": "all(" + SCORE_CELL.format(c="new_line[q]", p="(r + 1)", q="q") + " for q in range(0, k + 1))",
+        }),
+        2: Loop(inv={
+            "ai-range": "0 <= ai and ai <= len(seq_a)",
+            "bi-range": "0 <= bi and bi <= len(seq_b)",
+            "done": "implies(d == 'e', ai == 0 and bi == 0)",
+            "d-letter": "d == '' or d == 'e' or d == 'i' or d == 'd' or d == 'm'",
+            "optimal-so-far": "cnt(track, 'm') + lcs(seq_a, seq_b, ai, bi) == lcs(seq_a, seq_b, len(seq_a), len(seq_b))",
+        }),
+    },
+    safety_props=["C18"],
 )
